@@ -212,6 +212,7 @@ def run_scenario(sc, verbose=False, complete_at=None):
         do(net, a)
         if verbose:
             print("  step %d %r -> runs %s" % (i, a, [net.runs(x) for x in range(net.n)]))
+    net.heal()                                   # the property's premise: links healthy once the instance is back
     pC06.rounds(net, sc.get("settle", 14))
     fails = []
     surv = [s for s in range(net.n) if s != k]
@@ -279,6 +280,14 @@ def oracle_scenarios(ctx):
                 # the other way round: the survivor's message arrives while the restarted instance is sending
                 sc.append(dict(pat="two", n=n, finish=FINISH["two"],
                                acts=base + [["restart", 1]] + pre + [["outinj2", 1, pt, 0]] + [["link", 0, 1, "up"]]))
+    # the restarted instance's first attempts fail (link down / failure reported after delivery): the announcement must
+    # still accompany the first message that gets through
+    for n in (2, 3):
+        for st in ("down", "fail"):
+            base = [["in", 0, 1], ["in", 0, 4], ["out", 0], ["out", 0]] + [["upd", x] for x in range(1, n)]
+            sc.append(dict(pat="two", n=n, finish=FINISH["two"],
+                           acts=base + [["restart", 1], ["link", 1, 0, st], ["out", 1], ["clock", 4], ["out", 1],
+                                        ["link", 1, 0, "up"]]))
     # crash at every position of every short schedule, 2 instances
     alpha = [["in", 0, 1], ["in", 1, 4], ["in", 0, 2], ["out", 0], ["out", 1], ["upd", 0], ["upd", 1]]
     depth = 3 if ctx.quick else 4
